@@ -100,6 +100,7 @@ struct ProblemSpec {
     int coeff    = 0; // 0 Poisson 1 Sonnendrucker 2 SonnendruckerGyro 3 Zoni 4 ZoniGyro 5 ZoniShifted 6 ZoniShiftedGyro
     double Rmax = 1.3, p1 = 0.3, p2 = 0.2; // kappa/delta or eps/e
     double alpha_jump = 0.5;
+    int scale_exp = 0; // alpha and beta multiplied by 2^scale_exp (operator-level scenarios only: physical units differ)
     Value to_json() const;
     static ProblemSpec from_json(const Value& v);
     std::string str() const;
